@@ -77,8 +77,8 @@ func (w *world) runPendingWatchdog(limit time.Duration) error {
 
 func TestC03_PendingLedger(t *testing.T) {
 	rec := evid.For("C03")
-	rec.SetRule("rapid state machine over a world of 2..5 objects (conns, adapter, FIFO ends, listener, packet conn, regular file) plus 0..3 timers and Post on one IO: start ops (top level / dispatch limit), peer actions, Cancel, Close, timer ScheduleOnce/Cancel/Close, sleep, Post (top level and from handlers), failing registrations (regular file at the dispatch limit -> EPERM; descriptor replaced underneath -> epoll_ctl fails on register and on Close); after every top-level step IO.Pending() must equal the harness ledger (ops in flight + armed timers + posted-not-run handlers); PollOne: n>0 iff a handler ran is required one way (handler ran => n>0), n==0 => ErrTimeout, and with an empty ledger (0,ErrTimeout); end of case: everything in flight is made ready, then RunPending (under a 10 s watchdog) must return nil with an empty ledger and every op completed once, and return immediately when called again; non-trivial = >=3 kinds of ledger entry in one history OR a failed registration; distinct = hash of the trace")
-	rec.Assume("Post is not called from inside a posted handler here (C05 covers it); operation sizes <= 4 KiB so that one peer action makes an operation completable")
+	rec.SetRule("rapid state machine over a world of 2..5 objects (conns, adapter, FIFO ends, listener, packet conn, regular file) plus 0..3 timers and Post on one IO: start ops (top level / dispatch limit), peer actions, Cancel, Close, timer ScheduleOnce/Cancel/Close, sleep, Post (top level, from completion handlers, and 1..2 levels deep from inside posted handlers), failing registrations (regular file at the dispatch limit -> EPERM; descriptor replaced underneath -> epoll_ctl fails on register and on Close); after every top-level step IO.Pending() must equal the harness ledger (ops in flight + armed timers + posted-not-run handlers); PollOne: n>0 iff a handler ran is required one way (handler ran => n>0), n==0 => ErrTimeout, and with an empty ledger (0,ErrTimeout); end of case: everything in flight is made ready, then RunPending (under a 10 s watchdog) must return nil with an empty ledger and every op completed once, and return immediately when called again; non-trivial = >=3 kinds of ledger entry in one history OR a failed registration; distinct = hash of the trace")
+	rec.Assume("operation sizes <= 4 KiB so that one peer action makes an operation completable")
 	vt.CheckSteps(t, 1200, 30, func(rt *rapid.T) {
 		w := newWorld(rt)
 		w.checkReady = true
@@ -102,6 +102,7 @@ func TestC03_PendingLedger(t *testing.T) {
 		}()
 		kindsSeen := map[string]bool{}
 		failedReg := false
+		nestedPosts := false
 		broken := map[*wobj]bool{}
 		pickObj := func(lbl string) *wobj { return w.objs[rapid.IntRange(0, len(w.objs)-1).Draw(rt, lbl)] }
 		sizes := rapid.SampledFrom([]int{1, 3, 64, 1000, 4096})
@@ -125,17 +126,25 @@ func TestC03_PendingLedger(t *testing.T) {
 				kindsSeen["post"] = true
 			}
 		}
-		post := func(from string) {
+		// post posts a handler that, when nest > 0, posts again from inside the loop (and so on, nest levels deep): a
+		// handler posted while posted handlers run is in flight like any other and must keep the loop awake.
+		var post func(from string, nest int)
+		post = func(from string, nest int) {
 			w.postsPending++
-			w.log("%s:Post", from)
+			w.log("%s:Post(nest=%d)", from, nest)
 			if err := w.ioc.Post(func() {
 				w.postsPending--
 				w.handlersInPoll++
 				w.log("posted-ran")
+				if nest > 0 {
+					nestedPosts = true
+					post("posted", nest-1)
+				}
 			}); err != nil {
 				w.fail("Post: %v", err)
 			}
 		}
+		hookPosts := 0
 		start := func(rt *rapid.T, deep bool) {
 			o := pickObj("o")
 			if broken[o] && !deep {
@@ -173,7 +182,7 @@ func TestC03_PendingLedger(t *testing.T) {
 				failedReg = true
 			}
 		}
-		w.postHook = func(from string) { post(from) }
+		w.postHook = func(from string) { hookPosts++; post(from, hookPosts%2) }
 		rt.Repeat(map[string]func(*rapid.T){
 			"start":     func(rt *rapid.T) { start(rt, false) },
 			"start2":    func(rt *rapid.T) { start(rt, false) },
@@ -322,7 +331,7 @@ func TestC03_PendingLedger(t *testing.T) {
 				time.Sleep(time.Duration(ms) * time.Millisecond)
 				w.log("sleep(%d)", ms)
 			},
-			"post": func(rt *rapid.T) { post("top") },
+			"post": func(rt *rapid.T) { post("top", rapid.IntRange(0, 2).Draw(rt, "nest")) },
 			"poll": func(rt *rapid.T) {
 				empty := w.ledger() == 0
 				n, err := w.pollOnce()
@@ -409,6 +418,9 @@ func TestC03_PendingLedger(t *testing.T) {
 		}
 		if failedReg {
 			cls = append(cls, "failed-registration")
+		}
+		if nestedPosts {
+			cls = append(cls, "post-from-inside-a-posted-handler")
 		}
 		var kinds []string
 		for _, o := range w.objs {
